@@ -583,10 +583,14 @@ func (t *Table) getItem(key string) map[string]*types.Item {
 	return item
 }
 
-// Clear removes data and sorted keys from a table
+// Clear removes data and sorted keys from a table and from its indexes
 func (t *Table) Clear() {
 	t.SortedKeys = []string{}
 	t.Data = map[string]map[string]*types.Item{}
+
+	for _, index := range t.Indexes {
+		index.Clear()
+	}
 }
 
 // Put puts items into table
